@@ -182,7 +182,7 @@ class Prop:
                         for k, (p, d) in enumerate(nodes) if k != i]
                 yield dict(kind="load", nodes=rest)
             return
-        for h in mut.shrink_candidates(dict(univ=desc["univ"], ops=desc["ops"])):
+        for h in mut_ex.safe_shrink_candidates(dict(univ=desc["univ"], ops=desc["ops"])):
             yield dict(kind="hist", univ=h["univ"], ops=h["ops"])
 
     ORACLES = ("sibling",)
